@@ -5,5 +5,7 @@ CONSTANTS
   MaxAttempts = 2
   ClearOnFail = FALSE
   ClearOnReadFail = TRUE
+  CtxEarly = FALSE
+  ClearLate = FALSE
   UseLock = TRUE
 INVARIANT NoResidue
